@@ -93,7 +93,11 @@ func (b *Builder) AddLink(requestID graphsync.RequestID, link ipld.Link, linkAct
 // as well as whether the graphsync request responded with complete or partial
 // data.
 func (b *Builder) AddResponseCode(requestID graphsync.RequestID, status graphsync.ResponseStatusCode) {
-	b.completedResponses[requestID] = status
+	// a terminal status already queued in this message must reach the requestor: a later
+	// non-terminal status (e.g. the partial response of an update) does not replace it
+	if current, ok := b.completedResponses[requestID]; !ok || !current.IsTerminal() || status.IsTerminal() {
+		b.completedResponses[requestID] = status
+	}
 	// make sure this completion goes out in next response even if no links are sent
 	_, ok := b.outgoingResponses[requestID]
 	if !ok {
